@@ -14,7 +14,7 @@ def run(tier, seed):
     res = Result("C08", tier, seed)
     rng = random.Random(seed)
     thm = check_theorems("C08")
-    ncase = 60 if tier == "quick" else 600
+    ncase = 60 if tier == "quick" else 6000
     cases, meta, bad = [], [], []
     known_hits, repaired_hits = 0, 0
     known = any(e.get("key") == KEY for e in load_known_findings("C08"))
@@ -92,6 +92,17 @@ def run(tier, seed):
         res.violation("model evaluation failed (coqc)", dict(kind="coqc-error", log=e, no_failing_input_found=True))
     res.traces_validated = len(cases) - len(failing)
     corr = [meta[i] for i in failing[:4]]
+    # ---- whole passes of real Ehrenfest runs (coherent initial rho) replayed through Model/Traj.step_eh
+    import ptraj
+    tc, tmeta = ptraj.collect(res, rng, 7 if tier == "quick" else 150, 40 if tier == "quick" else 1500, kind="eh")
+    f4, e4 = run_case_check("C08traj", ptraj.PRELUDE_T, "caseE", "chkE", tc, per_file=8, timeout=1500)
+    for e in e4:
+        res.violation("model evaluation failed (coqc)", dict(kind="coqc-error", log=e, no_failing_input_found=True))
+    res.traces_validated += len(tc) - len(f4)
+    if f4 and not bad and not corr:
+        res.violation("loop body of an Ehrenfest run differs from Model/Traj.step_eh (Run/RTraj.chkE): C08_full_step no longer covers the code",
+                      dict(kind="correspondence", correspondence="Run/RTraj.chkE: Model/Traj.step_eh vs advance_position; advance_velocity; propagate_electronics; surface_hopping of Ehrenfest.simulate",
+                           failing_inputs=[tmeta[i] for i in f4[:4]], no_failing_input_found=True))
     if bad:
         res.violation("implementation violates: " + bad[0]["failed"], dict(kind="oracle", failing_inputs=bad[:4], correspondence_failures=corr))
     elif corr and not (known_hits == 0 and repaired_hits > 0):
@@ -103,5 +114,5 @@ def run(tier, seed):
                       dict(kind="correspondence", correspondence="eh_force_code vs Ehrenfest._force", failing_inputs=corr, no_failing_input_found=True))
     return finish(res, thm,
                   rule="random positions on the 10 registered models, density matrices: pure state index / pure coherent / mixed; potential_energy and _force of a real Ehrenfest object compared with the model of the code "
-                       "and with the mean-field force; hop-free runs at dt 8/4/2 for the active label and the energy drift; non-trivial = distinct case",
+                       "and with the mean-field force; hop-free runs at dt 8/4/2 for the active label and the energy drift; whole loop-body passes of real Ehrenfest runs with coherent initial density matrices (7 models) replayed through Model/Traj.step_eh; non-trivial = distinct case",
                   assumptions=["the known finding is recognised only when impl - mean-field equals the predicted -Re sum_{i!=j} rho_ji F_ij to 1e-10"])
